@@ -21,7 +21,8 @@ MANIFEST = dict(
 MODULE = "IwModel.Props.C14"
 THEOREMS = [
     "IwModel.C14.binn_roundtrip", "IwModel.C14.print_agree", "IwModel.C14.ptr_parse_spec", "IwModel.C14.ptr_parse_rejects",
-    "IwModel.C14.at_agree", "IwModel.C14.at_path_agree", "IwModel.C14.clone_binn_eq", "IwModel.C14.clone_tree_eq",
+    "IwModel.C14.at_forms_agree", "IwModel.C14.at_tree_first_match", "IwModel.C14.at_agree", "IwModel.C14.at_result_to_node",
+    "IwModel.C14.at_path_agree", "IwModel.C14.clone_binn_eq", "IwModel.C14.clone_tree_eq",
     "IwModel.C14.writer_rejects_bad_keys", "IwModel.C14.nul_string_cut",
 ]
 
